@@ -166,6 +166,19 @@ CtxOpen ==
   /\ Apply(S0, [a |-> "ctx_open", ctx |-> 1, out |-> [rv |-> "ok"]])
   /\ UNCHANGED <<up, used, now, nextMsg, known>>
 
+\* nng_ctx_close (req0_ctx_fini): every operation pending on the context completes with NNG_ECLOSED (a send still waiting
+\* for a pipe gets its message back), the request is forgotten; the context can be opened afresh
+CtxClose ==
+  /\ open1 /\ open1' = FALSE
+  /\ LET c == 1
+         A == IF recvOp[c] # 0 THEN Fin([S0 EXCEPT !.recvOp = [@ EXCEPT ![c] = 0]], recvOp[c], "eclosed", 0) ELSE S0
+         B == IF A.sendOp[c] # 0 /\ A.sendOp[c] # 9000
+                THEN Fin([A EXCEPT !.sendOp = [@ EXCEPT ![c] = 0], !.old = [@ EXCEPT ![c] = A.tag[c]], !.tag = [@ EXCEPT ![c] = 0],
+                                   !.held = [@ EXCEPT ![c] = FALSE], !.sendq = Remove(@, c)], A.sendOp[c], "eclosed", 0)
+                ELSE A
+     IN Apply([Reset(B, c) EXCEPT !.creset = [@ EXCEPT ![c] = FALSE]], [a |-> "ctx_close", ctx |-> 1, out |-> [rv |-> "ok", done |-> <<>>]])
+  /\ UNCHANGED <<up, used, retry, now, nextMsg, known>>
+
 \* ---------------------------------------------------------------- repliers (environment)
 Connect(p) ==
   /\ p \notin used /\ used' = used \cup {p} /\ up' = up \cup {p}
@@ -242,7 +255,7 @@ Advance(d) ==
   /\ UNCHANGED <<up, used, open1, retry, nextMsg, known>>
 
 Next == \/ (\E c \in Ctxs, md \in {"nb", "aio"} : Send(c, md) \/ Recv(c, md))
-        \/ (\E k \in 1..MaxOps : Cancel(k)) \/ CtxOpen
+        \/ (\E k \in 1..MaxOps : Cancel(k)) \/ CtxOpen \/ CtxClose
         \/ (\E c \in Ctxs, v \in {Resend, Resend2, Inf} : SetResend(c, v))
         \/ (\E p \in Pipes : Connect(p) \/ Take(p) \/ Lost(p, "close") \/ Lost(p, "short")
                              \/ \E c \in Ctxs, kd \in {"cur", "old", "unknown", "nobit", "unsent"} : Reply(p, kd, c))
